@@ -4,6 +4,7 @@ CONSTANTS
   Sizes = {0}
   MaxFaults = 99
   FaultKinds = {"Flip", "Drop", "Dup", "Swap", "Cut"}
+  Foreign = {"from", "res"}
   MaxHist = 999
 INVARIANT Done
 CHECK_DEADLOCK FALSE
